@@ -12,15 +12,18 @@ Local Open Scope N_scope.
 Definition proved_family (r : report) : bool :=
   match r with
   | RSgr _ => false
+  | RXterm _ mods _ => mods <? 8      (* known finding C04-key-mask: the table stops at mask 7 *)
+  | RFaceReport p => negb (sgr_inexpressible p)   (* known finding: 7/27/39/49, see face_report_recorded *)
   | _ => true
   end.
 
 Theorem single_proved r : proved_family r = true -> prod_wf r = true -> single r.
 Proof.
-  unfold prod_wf. intros Hp Hw. apply andb_true_iff in Hw. destruct Hw as [Hwf Hsd].
+  unfold prod_wf. intros Hp Hwf.
   destruct r; try discriminate.
-  - apply single_literal; [|exact Hsd]. cbn [wf] in Hwf. destruct (lit_lookup prod_key_table w); [discriminate| discriminate].
-  - apply single_xterm, Hwf.
+  - cbn [wf] in Hwf. destruct (lit_lookup prod_key_table w) eqn:E; [|discriminate].
+    apply single_literal; [rewrite E; discriminate| apply negb_true_iff, Hwf].
+  - apply single_xterm; [apply N.ltb_lt, Hp| exact Hwf].
   - apply single_char, Hwf.
   - apply single_kitty, Hwf.
   - apply single_level.
@@ -34,7 +37,7 @@ Proof.
   - apply single_tc_ok, Hwf.
   - apply single_tc_fail, Hwf.
   - apply single_paste, Hwf.
-  - apply single_facerep, Hwf.
+  - apply single_facerep; [exact Hwf| apply negb_true_iff, Hp].
 Qed.
 
 Theorem single_report r rest :
@@ -70,7 +73,7 @@ Qed.
 (* the ambiguity the property names: CSI 1 ; n R (n = 2..8) is the modified F3 of the key table *)
 Lemma f3_entries :
   forallb (fun n => match lit_lookup prod_key_table [27; 91; 49; 59; 48 + n; 82] with
-                    | Some (KF 3, m) => (m =? n - 1) && self_delimiting [27; 91; 49; 59; 48 + n; 82]
+                    | Some (KF 3, m) => (m =? n - 1) && negb (bare_prefix [27; 91; 49; 59; 48 + n; 82])
                     | _ => false
                     end) [2; 3; 4; 5; 6; 7; 8] = true.
 Proof. vm_compute. reflexivity. Qed.
@@ -85,7 +88,7 @@ Proof.
   destruct (lit_lookup prod_key_table [27; 91; 49; 59; 48 + n; 82]) as [[k m]|] eqn:E; [|discriminate].
   destruct k as [ | | | |f| | | | | | | | | | | ]; try discriminate.
   destruct (N.eq_dec f 3) as [->|Hf]; [|destruct f as [|p]; [discriminate|]; repeat (destruct p as [p|p|]; try discriminate); exfalso; apply Hf; reflexivity].
-  apply andb_true_iff in H. destruct H as [Hm Hsd]. apply N.eqb_eq in Hm. subst m.
+  apply andb_true_iff in H. destruct H as [Hm Hsd]. apply N.eqb_eq in Hm. subst m. apply negb_true_iff in Hsd.
   change ([27; 91; 49; 59; 48 + n; 82] ++ rest) with (print (RLit [27; 91; 49; 59; 48 + n; 82]) ++ rest).
   rewrite (decode_single _ (prod_denote (RLit [27; 91; 49; 59; 48 + n; 82])) rest).
   - unfold prod_denote, denote. rewrite E. reflexivity.
@@ -93,9 +96,10 @@ Proof.
 Qed.
 
 Theorem xterm_keys_decode k mods alt_form rest :
+  mods < 8 ->
   wf decmode_all prod_key_table (RXterm k mods alt_form) = true ->
   prod_decode (print (RXterm k mods alt_form) ++ rest) = (EKey k mods :: fst (prod_decode rest), snd (prod_decode rest)).
-Proof. intros H. exact (decode_single _ _ rest (single_xterm k mods alt_form H)). Qed.
+Proof. intros Hm H. exact (decode_single _ _ rest (single_xterm k mods alt_form Hm H)). Qed.
 
 Theorem sgr_event_decode p rest :
   SgrRef.sgr_wf p = true -> SgrRef.sgr_inexpressible p = false ->
@@ -104,3 +108,14 @@ Theorem sgr_event_decode p rest :
 Proof.
   intros Hwf Hx. destruct (sgr_event p Hwf Hx) as (m & Hs & Hsem). exists m. split; [apply decode_single, Hs| exact Hsem].
 Qed.
+
+(* well-formed reports are self-delimiting: the automaton is in a terminal accepting state after them *)
+Theorem wf_self_delimiting r :
+  proved_family r = true -> prod_wf r = true -> self_delimiting (print r) = true.
+Proof. intros Hp Hw. apply single_self_delimiting, single_proved; assumption. Qed.
+
+(* the face report with inexpressible parameters: exactly the recorded behaviour *)
+Theorem face_report_recorded_decode p rest :
+  sgr_wf p = true ->
+  prod_decode (print (RFaceReport p) ++ rest) = (face_report_recorded p :: fst (prod_decode rest), snd (prod_decode rest)).
+Proof. intros Hwf. apply decode_single, single_facerep_lib, Hwf. Qed.
